@@ -150,8 +150,8 @@ theorem positive_float_refuses_nonfinite (x : XF) (o : Bool) (h : x.finPos = fal
   | ninf => exact (positive_float_refusals o false).2.2.1 _ rfl
   | nan => exact (positive_float_refusals o false).2.1 _ rfl
 
-/-- `validate_float_or_int` (rank): accepted ⇒ `None` (optional) or a bool/int returned as is or a
-    float that is not NaN. -/
+/-- `validate_float_or_int` (rank): accepted ⇒ `None` (optional) or a bool/int returned as is (a NumPy / JAX
+    integer scalar as the Python int of the same value) or a float that is not NaN. -/
 theorem float_or_int_post {v r : PyVal} {o : Bool} (h : validateFloatOrInt v o = ok r) :
     (r = .none ∧ v = .none ∧ o = true) ∨ cleanNumber r := by
   unfold validateFloatOrInt at h
@@ -160,7 +160,105 @@ theorem float_or_int_post {v r : PyVal} {o : Bool} (h : validateFloatOrInt v o =
   · right
     split at h
     · rename_i hfi; exact nanCheck_post hfi h
-    · exact floatCheck_post h
+    · split at h
+      · exact nanCheck_post (v := .int _) rfl h
+      · exact floatCheck_post h
+
+/-- `validate_float_or_int` on a NumPy / JAX integer scalar (`numpy.int64(5)`, `numpy.uint8(3)`, a 0-d integer
+    array of NumPy / JAX), whatever `optional`: `int(value)` followed by the int64 range check of
+    `_isnan_scalar` — exactly what the Python int of the same value gets. -/
+theorem float_or_int_npint (f : IntForm) (i : Int) (o : Bool) :
+    validateFloatOrInt (.npint f i) o
+      = (if -(2 ^ 63 : Int) ≤ i ∧ i < (2 ^ 63 : Int) then ok (.int i) else valueError) ∧
+    validateFloatOrInt (.npint f i) o = validateFloatOrInt (.int i) o := by
+  have h1 : validateFloatOrInt (.npint f i) o
+      = (isnanScalar (.int i)).bind fun b => if b then valueError else ok (.int i) := by cases o <;> rfl
+  have h2 : validateFloatOrInt (.int i) o
+      = (isnanScalar (.int i)).bind fun b => if b then valueError else ok (.int i) := by cases o <;> rfl
+  refine ⟨?_, h1.trans h2.symm⟩
+  rw [h1]
+  show ((if -(2 ^ 63 : Int) ≤ i ∧ i < (2 ^ 63 : Int) then (ok false : Outcome Bool) else valueError).bind _) = _
+  split <;> rfl
+
+/-- **Integer scalars stay integers.**  An accepted integer input — a Python int, or a NumPy / JAX integer
+    scalar of any integer dtype (NumPy scalar object, 0-d NumPy array, 0-d JAX array) — comes back as the
+    Python int of the same value, never as a float (so an integer `rank` keeps meaning "this many
+    directions" and is not read as the fraction `>= 1.0` = "no rank reduction"); a float input comes back
+    as that float.  Integers are accepted exactly inside the int64 range. -/
+theorem float_or_int_keeps_integers (o : Bool) :
+    (∀ i : Int, -(2 ^ 63 : Int) ≤ i → i < (2 ^ 63 : Int) → validateFloatOrInt (.int i) o = ok (.int i)) ∧
+    (∀ (f : IntForm) (i : Int), -(2 ^ 63 : Int) ≤ i → i < (2 ^ 63 : Int) →
+        validateFloatOrInt (.npint f i) o = ok (.int i)) ∧
+    (∀ (i : Int) (r : PyVal), validateFloatOrInt (.int i) o = ok r → r = .int i) ∧
+    (∀ (f : IntForm) (i : Int) (r : PyVal), validateFloatOrInt (.npint f i) o = ok r → r = .int i) ∧
+    (∀ x : XF, x.isNan = false → validateFloatOrInt (.float x) o = ok (.float x)) ∧
+    (∀ (x : XF) (r : PyVal), validateFloatOrInt (.float x) o = ok r → r = .float x) := by
+  have hint : ∀ i : Int, validateFloatOrInt (.int i) o
+      = (if -(2 ^ 63 : Int) ≤ i ∧ i < (2 ^ 63 : Int) then ok (.int i) else valueError) := by
+    intro i
+    rw [← (float_or_int_npint .npScalar i o).2]; exact (float_or_int_npint .npScalar i o).1
+  have hflt : ∀ x : XF, validateFloatOrInt (.float x) o = if x.isNan then valueError else ok (.float x) := by
+    intro x; cases o <;> rfl
+  refine ⟨?_, ?_, ?_, ?_, ?_, ?_⟩
+  · intro i h1 h2; rw [hint, if_pos ⟨h1, h2⟩]
+  · intro f i h1 h2; rw [(float_or_int_npint f i o).1, if_pos ⟨h1, h2⟩]
+  · intro i r h
+    rw [hint] at h
+    split at h
+    · injection h with h; exact h.symm
+    · cases h
+  · intro f i r h
+    rw [(float_or_int_npint f i o).1] at h
+    split at h
+    · injection h with h; exact h.symm
+    · cases h
+  · intro x hx; rw [hflt, hx]; rfl
+  · intro x r h
+    rw [hflt] at h
+    split at h
+    · cases h
+    · injection h with h; exact h.symm
+
+example : validateFloatOrInt (.npint .npScalar 5) true = ok (.int 5) := by rfl
+example : validateFloatOrInt (.npint (.arr0 .jax) (-3)) false = ok (.int (-3)) := by rfl
+example : validateFloatOrInt (.npint (.arr0 .np) (2 ^ 63 + 5)) true = valueError := by rfl
+-- a float dtype (0-d array holding 5.0) is not an integer scalar: it stays a float, as before
+example : validateFloatOrInt (.arr .np [] [.fin 5]) true = ok (.float (.fin 5)) := by rfl
+
+/-- The other scalar validators are unchanged: they convert a NumPy / JAX integer scalar with `float()`
+    (`validate_float`: mu; `validate_positive_float`: jitter, ls, …), so it comes back as the nearest double;
+    `validate_positive_int` refuses it (it is no instance of `int`). -/
+theorem integer_scalar_other_validators (f : IntForm) (i : Int) (o ai : Bool) (x : XF) (h : intToFloat i = ok x) :
+    validateFloat (.npint f i) o = ok (.float x) ∧
+    validatePositiveFloat (.npint f i) o ai = (if 0 < i then ok (.float x) else valueError) ∧
+    validatePositiveInt (.npint f i) o = valueError := by
+  rcases intToFloat_cases i with hi | ⟨q, hq, hpos, hneg⟩
+  · rw [hi] at h; cases h
+  · have hx : x = .fin q := (Outcome.ok.inj (hq.symm.trans h)).symm
+    subst hx
+    have hfc : floatCatch (.npint f i) = ok (.fin q) := by
+      simp only [floatCatch, pyFloat, hq]
+    have e1 : validateFloat (.npint f i) o
+        = (floatCatch (.npint f i)).bind fun x => if x.isNan then valueError else ok (.float x) := by
+      cases f with
+      | npScalar => rfl
+      | arr0 lib => cases lib <;> rfl
+    have e2 : validatePositiveFloat (.npint f i) o ai
+        = (floatCatch (.npint f i)).bind fun x =>
+            if x.le0 then valueError else if x.isNan then valueError
+            else if x.isInf && !ai then valueError else ok (.float x) := by cases o <;> rfl
+    refine ⟨?_, ?_, by cases o <;> rfl⟩
+    · rw [e1, hfc]; rfl
+    · rw [e2, hfc]
+      by_cases hi : 0 < i
+      · have h0 : ¬ q ≤ 0 := not_le.mpr (hpos hi)
+        simp [Outcome.bind, XF.le0, XF.isNan, XF.isInf, hi, h0]
+      · have h0 : q ≤ 0 := hneg (by omega)
+        simp [Outcome.bind, XF.le0, hi, h0]
+
+example : intToFloat 5 = ok (.fin 5) ∧ intToFloat (2 ^ 53 + 1) = ok (.fin (2 ^ 53)) := by decide +kernel
+example : validateFloat (.npint (.arr0 .jax) 5) true = ok (.float (.fin 5)) :=
+  (integer_scalar_other_validators _ 5 true false _ (by decide +kernel)).1
 
 theorem float_or_int_refusals (o : Bool) :
     validateFloatOrInt .none false = valueError ∧
@@ -170,8 +268,12 @@ theorem float_or_int_refusals (o : Bool) :
     (∀ xs, validateFloatOrInt (.list xs) o = valueError) ∧
     validateFloatOrInt .obj o = valueError ∧
     (∀ lib shape data, ¬(shape = [] ∧ data.length = 1) →
-        validateFloatOrInt (.arr lib shape data) o = valueError) := by
-  refine ⟨rfl, ?_, ?_, ?_, ?_, ?_, ?_⟩
+        validateFloatOrInt (.arr lib shape data) o = valueError) ∧
+    -- a NumPy / JAX integer scalar outside the int64 range (a `uint64` above 2^63 − 1): `int(value)` is a Python
+    -- int that `_isnan_scalar` refuses
+    (∀ (f : IntForm) (i : Int), ¬ (-(2 ^ 63 : Int) ≤ i ∧ i < (2 ^ 63 : Int)) →
+        validateFloatOrInt (.npint f i) o = valueError) := by
+  refine ⟨rfl, ?_, ?_, ?_, ?_, ?_, ?_, ?_⟩
   · intro x hx; cases o <;> simp [validateFloatOrInt, floatCatch, Outcome.bind, PyVal.isFloatOrInt, isnanScalar, hx]
   · intro s; cases o <;> rfl
   · intro s; cases o <;> rfl
@@ -182,6 +284,8 @@ theorem float_or_int_refusals (o : Bool) :
       unfold pyFloat
       split <;> simp_all
     cases o <;> simp [validateFloatOrInt, floatCatch, Outcome.bind, PyVal.isFloatOrInt, this]
+  · intro f i hi
+    rw [(float_or_int_npint f i o).1, if_neg hi]
 
 /-- `validate_float` (mu, mu_dim, mu_dens). -/
 theorem validate_float_post {v r : PyVal} {o : Bool} (h : validateFloat v o = ok r) :
@@ -553,7 +657,9 @@ theorem validators_no_internal (v : PyVal) (o p ai : Bool) (choices : List Strin
     · rfl
     · split
       · rename_i hfi; exact nanCheck_noInternal hfi
-      · exact floatCheck_noInternal v
+      · split
+        · exact nanCheck_noInternal (v := .int _) rfl
+        · exact floatCheck_noInternal v
   · unfold validatePositiveFloat
     split
     · rfl
@@ -613,6 +719,7 @@ theorem validators_no_internal (v : PyVal) (o p ai : Bool) (choices : List Strin
 /-- The former counter-example witnesses (ints outside int64 / beyond the double range raised
     OverflowError before the repair) are now refused with ValueError. -/
 theorem big_ints_refused :
+    (validateFloatOrInt (.npint .npScalar (2 ^ 63)) true).isValueError = true ∧
     (validateFloatOrInt (.int (2 ^ 63)) false).isValueError = true ∧
     (validateFloat (.int (2 ^ 63)) false).isValueError = true ∧
     (validateFloatOrInt (.int (-(2 ^ 63) - 1)) true).isValueError = true ∧
@@ -621,7 +728,7 @@ theorem big_ints_refused :
     (validateArray (.list [.int (2 ^ 1024)]) false none).isValueError = true ∧
     (validate1d (.int (-(2 ^ 1024)))).isValueError = true := by
   refine ⟨by decide +kernel, by decide +kernel, by decide +kernel, by decide +kernel, by decide +kernel,
-    by decide +kernel, by decide +kernel⟩
+    by decide +kernel, by decide +kernel, by decide +kernel⟩
 
 /-- ints outside the int64 range are refused by `validate_float_or_int` / `validate_float` (rank, mu, …). -/
 theorem int64_overflow_refused (i : Int) (h : ¬ (-(2 ^ 63 : Int) ≤ i ∧ i < (2 ^ 63 : Int))) (o : Bool) :
